@@ -79,8 +79,9 @@ def verify_function(reg, frontend, con, prop=None):
         return res
     res.source_hash = frontend.source_hash(con)
     funcname = con.target
-    from .expr import RD_HINTS
+    from .expr import RD_HINTS, NEQ
     RD_HINTS.clear()
+    NEQ.clear()
     ctx = Ctx(reg, con, funcname, prop)
     it = Interp(reg, frontend, con, ctx)
     it.loop_ord, res.n_loops = frontend.loop_ordinals(fn)
@@ -114,17 +115,29 @@ def verify_function(reg, frontend, con, prop=None):
     body_fn = fn
     region = con.options.get("region")
     if region:
-        # verify only one statement of a function whose remainder is outside the subset (stated in the evidence)
-        hit = resolve_anchor(fn, "at:" + region)
+        # verify only part of a function: one statement ("text"), or everything from a top-level statement to the end
+        # ("from:text").  Used where the rest is outside the subset, or to split a long proof into sequential steps whose
+        # intermediate assertion is the ensures of one step and the requires of the next (stated in the evidence).
+        tail = region.startswith("from:")
+        text = region[5:] if tail else region
+        hit = resolve_anchor(fn, "at:" + text)
         if hit is None:
             res.status, res.reason = "out-of-date", "region %r not found" % region
             return res
         target_line = hit[1]
-        stmt = next(n for n in ast.walk(fn) if isinstance(n, ast.stmt) and getattr(n, "lineno", None) == target_line
-                    and region in ast.unparse(n).split("\n")[0])
-        body_fn = ast.FunctionDef(name=fn.name, args=fn.args, body=[stmt], decorator_list=fn.decorator_list, lineno=fn.lineno)
-        res.region = "only the statement starting at line %d (%s) is verified; the rest of %s is outside the subset" % (
-            target_line, region, con.qualname)
+        if tail:
+            idx = next((k for k, n in enumerate(fn.body) if getattr(n, "lineno", None) == target_line), None)
+            if idx is None:
+                res.status, res.reason = "out-of-date", "region %r is not a top-level statement" % region
+                return res
+            stmts = fn.body[idx:]
+        else:
+            stmts = [next(n for n in ast.walk(fn) if isinstance(n, ast.stmt) and getattr(n, "lineno", None) == target_line
+                          and text in ast.unparse(n).split("\n")[0])]
+        body_fn = ast.FunctionDef(name=fn.name, args=fn.args, body=stmts, decorator_list=fn.decorator_list, lineno=fn.lineno)
+        res.region = "only %s line %d (%s) of %s is verified under this contract" % (
+            "the statements from" if tail else "the statement at", target_line, text, con.qualname)
+        # loop ordinals are those of the whole function (contracts name them that way)
     stack = [[]]
     try:
         while stack:
@@ -226,6 +239,15 @@ def frame_allowed(it, con, key, r, st):
                 return None
             continue
         node = _ast.parse(m, mode="eval").body
+        if isinstance(node, _ast.Call) and isinstance(node.func, _ast.Name) and node.func.id == "listof":
+            inner = node.args[0]
+            lst = it.ev(inner.value.args[0], tmp, True)
+            e, arr, off, ln = it.seq_of(lst, tmp, True)
+            fkey, fty = it.field_key(e.arg, inner.attr)
+            if base in (it.content_key(fty.arg), it.len_key(fty.arg)):
+                farr = tmp.harr(fkey, it.heap_sort(fkey))
+                alts.append(z3.Exists([i], z3.And(0 <= i, i < ln, farr[arr[i + off]] == r)))
+            continue
         if isinstance(node, _ast.Call) and isinstance(node.func, _ast.Name) and node.func.id == "list":
             lst = it.ev(node.args[0], tmp, True)
             if base in (it.content_key(lst.ty.arg), it.len_key(lst.ty.arg)):
